@@ -31,7 +31,8 @@ RULE = ("2-4 real threads issue 1-3 requests each through different wrappers (Ht
         "pre-emption relative to each shared access of the first request (plus, thorough, at EVERY opcode boundary of a "
         "request), all pairs of such placements for two pre-emptions, random segment schedules for 3-4 threads; mixes "
         "of caller-supplied ids (documented spelling, other spellings, several spellings), ids disabled, counters "
-        "started near the 10^4 / 10^12 format boundaries.  Non-trivial = at least two threads and another thread's "
+        "started near the 10^4 / 10^12 format boundaries; one headers dict object passed to several requests; wrappers derived from "
+        "the root inside the threads while others use it; requests with dict/str/bytes bodies.  Non-trivial = at least two threads and another thread's "
         "shared access falls between the first and the last shared access of some request.")
 TRUSTED_BASE = [
     "CPython runs one thread at a time and a thread switch happens only between two bytecode instructions; threading.Lock is a mutex "
@@ -874,8 +875,44 @@ def extra_coverage():
     return {"respelled_caller_ids_enforced": _respelled_registered()}
 
 
-TECHNIQUE = ("Coq proof (invariant over all schedules, i.e. all lists of thread ids) on a small-step machine whose program is "
-             "generated from the AST of the method + per-run correspondence under an opcode-level deterministic scheduler of real threads")
-LEVEL_TEXT = "see harness/props/c16.notes.md"
-LEVEL_NOTE = ""
+TECHNIQUE = ("Coq proof: an invariant of a small-step machine (shared lock + counter, per-thread code/registers/output) preserved by every "
+             "step of every thread, so the theorems quantify over ALL schedules (any list of thread ids, hence every prefix of every "
+             "interleaving), all thread counts, request counts and mixes of caller-supplied ids; a termination measure for liveness; "
+             "injectivity of the id format by decoding the decimal tail.  The machine's program (one instruction per access to the "
+             "shared counter/lock, inside or outside the `with` block), the header keys, the format pieces and the wrapper rule are "
+             "regenerated from the AST of ak/conn_http.py on every run (fail closed) and must pass the proved-sufficient check "
+             "`well_locked` / `sep_ok` / `wrap_rule = RShareParent`.  Per-run correspondence: real threads driven by a deterministic "
+             "opcode-level scheduler (sys.settrace + f_trace_opcodes, lock replaced by a non-blocking proxy); the logged order of shared "
+             "accesses is the model's schedule and the model must reproduce every access kind, every X-request-id seen by the opener "
+             "and the final counter.  Independent oracle on the observed headers: distinct ids, numbers c0..c0+n-1, caller ids unchanged.")
+LEVEL_TEXT = ("Full at model level, for ALL schedules / thread counts / request mixes / start values (28 closed statements, no axioms): "
+              "unique_gapfree (+ _every_prefix, + _any_program for every program passing well_locked): in every state of every "
+              "interleaving the numbers sent are pairwise distinct and, with those of threads between lock release and send, are exactly "
+              "c0..c0+k-1, the counter being c0+k whenever the lock is free (no repeat, no gap, no lost update); gapfree_at_rest (k = number "
+              "of requests WITHOUT a caller id: supplied ids consume nothing); every_request_answered (per request: caller id under the "
+              "documented key -> the caller's headers are sent and no number used, otherwise the id is fmt(n); no request raises); "
+              "caller_id_sent_unchanged (value under 'X-Request-ID', with no other spelling beside it, is the value sent -- any value, "
+              "also the empty string); id_injective (for ALL n, m >= 0, unbounded, across connection parts: the format read from the "
+              "source -- separator, widths, modulus are generated constants, obligation sep_ok -- is injective because its decimal tail "
+              "decodes to n) hence ids_pairwise_distinct and generated_values_distinct (the header values the opener saw); ids_disabled; "
+              "derived_connections_share_impl (every wrapper at any depth uses its root's lock and counter, rule generated from "
+              "_HttpConnBase.__init__); liveness: no_deadlock (some thread can always move), can_always_finish (from every reachable "
+              "state, ids on or off, an effective continuation ends with all requests sent), effective_schedules_finish + "
+              "steps_are_bounded (every schedule that keeps scheduling runnable threads finishes within steps_left steps); "
+              "lost_update_without_lock (sanity: the same program without Acquire/Release duplicates number 0) and 10 non-vacuity examples.  "
+              "Only tested (correspondence + oracle, ~900 schedules quick / ~9000 thorough): that the model is the code -- CPython "
+              "switches threads only between bytecodes and threading.Lock is a mutex; the request path outside the id section "
+              "(RequestArguments copying the caller's dict, adapters, bodies, urllib's header capitalisation) leaves the header alone; "
+              "connections derived while others are in use; one headers dict object shared by many requests.  Not a theorem and decided by "
+              "reading: a caller id under ANOTHER spelling of the header name ('x-request-id') is replaced and uses a number "
+              "(other_spelling_is_replaced, proved of the model, reproduced on the code) -- finding caller-id-respelled-replaced, "
+              "enforced by the oracle once registered in KNOWN_FINDINGS.json; uniqueness is claimed for generated ids only (a caller may "
+              "supply the same id twice).")
+LEVEL_NOTE = ("Trusted: Coq kernel + vm_compute; CPython's thread model (one thread runs at a time, switches at bytecode boundaries; "
+              "Lock.acquire on a held lock blocks; `with` releases); the ast extractor that turns _generate_request_id / do_request into "
+              "impl_prog and constants (fail closed: any unrecognised statement, further use of the counter/lock/generator anywhere in "
+              "the module, rebinding of conn_impl or headers breaks the proof step); the scheduler harness incl. the LockProxy "
+              "substituted for the instance attribute _reqid_generator_guard (a lock reached any other way blocks for real: reported as "
+              "threads-stuck); str.format('{:0N}') = zero-padded decimal (model pad/dec, compared up to 10^15).  Details, findings and "
+              "detection tests: harness/props/c16.notes.md.")
 DESIGN_REF = "DESIGN.md section 8, C16"
